@@ -203,6 +203,7 @@ def fault_run(tf, workdir, hist, op, k, mode, battery, auto=True, storage_kwargs
         res["event"] = s.h.events[k][1:3] if k < len(s.h.events) else None
         s.h.disarm()
         res["out"] = out
+        res["disk_after_fault"] = s.contents()
         # follow-up on the live object
         follow = []
         for o in battery:
